@@ -227,12 +227,30 @@ func execC07(e *Env, pp any) {
 		e.Note("fault.inflight")
 		e.Note("nontrivial")
 	}
+	// first quiescent point after the fault, before any timer is flushed: is the
+	// stream's read loop stuck writing its reset (known finding F05)?
+	rstBlocked := false
+	e.NoAutoAdvance = true
+	reason = e.Drive(nil)
+	e.NoAutoAdvance = false
+	if reason == Quiescent {
+		for _, v := range e.W.Snapshot() {
+			if !v.Done && v.Started && v.Goat && v.LastSite == "internal/client/stream.go:readLoop:cancel#0" && containsAny(v.Name, "caller.target/") {
+				rstBlocked = true
+				e.Note("rst.write.blocked")
+			}
+		}
+	}
 	reason = e.Settle()
 	if reason == Crashed || reason == StepLimit {
 		return
 	}
 	const prop = "C07"
 	site := kindNames[p.Target.Kind]
+	rsite := site
+	if rstBlocked {
+		rsite = "rst-write-blocked-by-pending-response"
+	}
 	completedInFlight := trailerReadEv != 0 && trailerReadEv < t
 	if returned || finalBefore {
 		return // precondition "before the call has completed" does not hold
@@ -332,17 +350,17 @@ func execC07(e *Env, pp any) {
 	}
 	cout.mu.Unlock()
 	if opened && !completedInFlight && !concurrent && trailerReadEv == 0 && !reset {
-		e.Violate(prop, "no-reset", site, "the stream was opened and no trailer was received, but no reset for id %d was written during settle", wid)
+		e.Violate(prop, "no-reset", rsite, "the stream was opened and no trailer was received, but no reset for id %d was written during settle", wid)
 	}
 	if reset {
 		e.Note("reset.sent")
 	}
 	// (4) handler context done
 	if tr.HInvoked > 0 && tr.HCtx != nil && tr.HCtx.Err() == nil {
-		e.Violate(prop, "handler-ctx-live", site, "the handler's context is still live after settle although its caller has gone")
+		e.Violate(prop, "handler-ctx-live", rsite, "the handler's context is still live after settle although its caller has gone")
 	}
 	if opened && tr.HInvoked > 0 && !tr.HReturned {
-		e.Violate(prop, "handler-running", site, "the handler is still running after settle although its caller has gone\n%s", e.WaitGraph())
+		e.Violate(prop, "handler-running", rsite, "the handler is still running after settle although its caller has gone\n%s", e.WaitGraph())
 	}
 	// (5) other calls unaffected
 	run := &MixRun{E: e, Sim: sim, Net: net, P: &MixParams{}}
